@@ -252,7 +252,7 @@ def check_C10(sc, v, tier, seed, replay):
     sc.build(["rec-nassec"])
     r = sc.run("rec-nassec", ["dlmsgs", seed, 60])
     msgs = json.loads(r.stdout.strip().splitlines()[-1])
-    longs, msgs = msgs[:6], msgs[6:]
+    longs, msgs = msgs[:7], msgs[7:]
     pairs = [(0, 2), (1, 2), (2, 2), (0, 1), (1, 1), (2, 1)]
     W = (1 << 24) - 6
     # (algorithm pair, start COUNT) fixed per history: every ciphering algorithm crosses 2^24, 2^16 and 2^8 under both integrity
@@ -283,8 +283,9 @@ def check_C10(sc, v, tier, seed, replay):
             if s == 15:
                 hdr, plain = 0, [0x7e, 0x00, [0x46, 0x54][h % 2]]     # a plain message that is nothing but its three header octets
             if s in (2, 9):
-                # long messages (more than 255 octets, several keystream blocks) at fixed steps; the 4100-octet one in the thorough tier
-                plain = longs[(h + (0 if s == 2 else 3)) % (5 if tier == "quick" else 6)]
+                # long messages (more than 255 octets, several keystream blocks, up to 8300 octets: a bit length above 2^16 and more than
+                # 2048 keystream words) at fixed steps
+                plain = longs[(h + (0 if s == 2 else 3)) % 7]
                 if tier == "quick" and s == 9 and h in (2, 5):
                     plain, hdr = longs[5], 2      # more than 4096 octets (over 256 cipher blocks) once under NEA2 with each integrity algorithm
             lines.append({"ev": "Msg", "id": idn, "hist": h, "hdr": hdr, "skip": skip, "plain": plain})
